@@ -6,6 +6,7 @@ package c03
 import (
 	"fmt"
 	"math"
+	"strings"
 	"testing"
 
 	"github.com/6tail/lunar-go/ShouXingUtil"
@@ -324,6 +325,22 @@ var lookups = ev.Register(&ev.P[lookCase]{
 			}
 			return nil
 		}
+		// the same moment as a lunar date built from its lunar numbers answers the look-ups alike
+		if (t.D+t.H)%3 == 0 || l.GetYear() != t.Y {
+			l2 := calendar.NewLunar(l.GetYear(), l.GetMonth(), l.GetDay(), t.H, t.Mi, t.S)
+			show := func(x *calendar.Lunar) string {
+				r := func(j *calendar.JieQi) string {
+					if j == nil {
+						return "nil"
+					}
+					return j.GetName() + "@" + j.GetSolar().ToYmdHms()
+				}
+				return strings.Join([]string{r(x.GetPrevJieQi()), r(x.GetNextJieQi()), r(x.GetPrevJie()), r(x.GetNextJie()), r(x.GetPrevQi()), r(x.GetNextQi()), r(x.GetPrevJieQiByWholeDay(true)), x.GetJieQi(), x.GetJieQiTable()["DA_XUE"].ToYmdHms(), x.GetJieQiTable()["冬至"].ToYmdHms()}, " ")
+			}
+			if a, b := show(l), show(l2); a != b {
+				return fmt.Errorf("%v: the lunar date built by NewLunar(%d,%d,%d,…) answers %s, the one converted from the civil date %s", t, l.GetYear(), l.GetMonth(), l.GetDay(), b, a)
+			}
+		}
 		for _, e := range []error{cur("GetCurrentJieQi", l.GetCurrentJieQi(), wantAll, wantJie != ""), cur("GetCurrentJie", l.GetCurrentJie(), wantJie, true), cur("GetCurrentQi", l.GetCurrentQi(), wantQi, false)} {
 			if e != nil {
 				return fmt.Errorf("%v: %v", t, e)
@@ -427,6 +444,15 @@ func TestC03(t *testing.T) {
 				if q.Y == y { // each query is made from its own civil year
 					lookups.Eval(lookCase{q})
 				}
+			}
+		}
+	}
+	// days whose lunar year differs from the civil year in either direction
+	if ev.Shard == 0 {
+		for _, d := range []ref.DT{{Y: 15, M: 12, D: 30}, {Y: 15, M: 12, D: 31}, {Y: 18, M: 12, D: 27}, {Y: 18, M: 12, D: 31}, {Y: 16, M: 1, D: 1}, {Y: 2024, M: 1, D: 15}, {Y: 2024, M: 2, D: 9}, {Y: 1582, M: 1, D: 10}} {
+			for _, h := range []int{0, 12, 23} {
+				d.H = h
+				lookups.Eval(lookCase{d})
 			}
 		}
 	}
